@@ -40,6 +40,20 @@ def check_e1(rep, objs):
     n_cc = 0
     table_ids = {}   # decl id -> table name
     table_names = set(allowed)
+    class_fields = {}   # class name -> field types (to see through `static const` objects that own shared mutable state)
+
+    def shares_state(ty, depth=0):
+        """a const object of this type can still reach mutable state: it holds a (smart) pointer / reference wrapper / callable"""
+        t = ty.replace("const ", "").strip()
+        if re.search(r"shared_ptr<|unique_ptr<|reference_wrapper<|std::function<|\*\s*$|\*\s*const", ty):
+            return ty
+        base = re.sub(r"<.*$", "", t).split("::")[-1].strip(" &")
+        if depth < 3 and base in class_fields:
+            for ft in class_fields[base]:
+                r_ = shares_state(ft, depth + 1)
+                if r_:
+                    return "%s (member of %s)" % (r_, base)
+        return None
 
     def in_repo(n):
         f, _ = A.loc(n)
@@ -63,6 +77,7 @@ def check_e1(rep, objs):
             if n.get("completeDefinition") and in_repo(n):
                 n_classes += 1
                 fields = [c for c in A.kids(n) if c.get("kind") == "FieldDecl"]
+                class_fields[n.get("name", "")] = [c.get("type", {}).get("qualType", "") for c in fields]
                 muts = [c for c in fields if c.get("mutable")]
                 rep.instance("E1.mutable", "::".join(sc), "fields", ok=not muts, nontrivial=bool(fields),
                              sample={"file": fe.rel(A.loc(n)[0]), "line": A.loc(n)[1], "fields": [c.get("name") for c in fields]})
@@ -131,6 +146,13 @@ def check_e1(rep, objs):
         short = qn.split("::")[-1]
         f, l = A.loc(n)
         if is_const:
+            via = shares_state(ty) if ctx == "local" or n.get("storageClass") == "static" else None
+            if via and not n.get("constexpr"):
+                rep.instance("E1.static", qn, "const-with-shared-state", ok=False, sample={"file": fe.rel(f), "line": l, "type": ty[:60]})
+                rep.violation(Finding("E1.static", qn, "const-with-shared-state",
+                                      "`static %s`: the object is const but owns `%s`, so every call of the enclosing function shares (and may mutate) the state "
+                                      "behind it" % (ty[:60], via[:80]), f, l))
+                continue
             rep.instance("E1.static", qn, "const", ok=True, nontrivial=False)
             continue
         # qualified suffix match against the frozen table
